@@ -136,6 +136,10 @@ fn uses() -> Vec<(&'static str, &'static str)> {
         ("ref3", "SELECT (SELECT count(*) FROM {X}) AS n1, (SELECT count(*) FROM {X} WHERE a IS NULL) AS n2, (SELECT count(*) FROM {X} WHERE b IS NULL) AS n3"),
         ("ref1-agg", "SELECT a, count(*) AS n, sum(b) AS s FROM {X} GROUP BY a"),
         ("ref2-join-other", "SELECT x1.a, i.c FROM {X} AS x1 JOIN i ON x1.a = i.a WHERE x1.b IN (SELECT b FROM {X})"),
+        // a filter that applies to ONE reference only: the other reference still sees every row of the definition
+        ("ref2-filter-one-in", "SELECT x1.a, x1.b FROM {X} AS x1 WHERE x1.a >= 2 AND x1.b IN (SELECT b FROM {X})"),
+        ("ref2-filter-one-union", "SELECT count(*) AS n FROM {X} WHERE a >= 2 UNION ALL SELECT count(*) FROM {X}"),
+        ("ref2-filter-one-scalar", "SELECT x1.a, (SELECT count(*) FROM {X} AS x2 WHERE x2.b <= x1.b) AS n FROM {X} AS x1 WHERE x1.a >= 2"),
     ]
 }
 
